@@ -786,6 +786,11 @@ type vfC04Opts struct {
 	Msg    int `json:",omitempty"` // which real refusal text the injected error reply carries (vfC04FailMsgs / vfC04InnerMsgs)
 	MaxBuf int `json:",omitempty"` // > 0: the value-chunking threshold (maxBinEntryBuffer) for this run — split hashes
 	Pol    string `json:",omitempty"` // keyExists policy: "" = replace | ignore | error
+	// dimension audit (session 5, last round)
+	HashTag bool `json:",omitempty"` // replaceHashTag: the entry is written to (and routed by) the key without its first brace pair
+	MaxBulk int  `json:",omitempty"` // > 0: MaxProtoBulkLen — a value whose dump is larger is EXPANDED although restore is on
+	TDB     int   `json:",omitempty"` // > 0: TargetDb = TDB-1 (every source database is replayed into that one)
+	FDB     []int `json:",omitempty"` // dbBlacklist: entries of these source databases are filtered (counted, not replayed)
 }
 
 // the texts a real target refuses a request with (a tolerance keyed on a message shows up only with the real message)
@@ -818,6 +823,9 @@ type vfC04Res struct {
 	// those left in a MULTI that was never executed) — against the undisturbed run of the scenario this is how often
 	// the entry was applied
 	KeyReqs map[string]int
+	// dimension audit: EVERY rendered request the double executed (PING aside) — for snapshots whose data set the monitor
+	// does not know (Redis-produced fixtures): a replay that returned nil must have executed what the undisturbed run executes
+	AllReqs map[string]int
 }
 
 func vfC04DefaultOpts() vfC04Opts {
@@ -863,6 +871,11 @@ func vfC04Send(t *testing.T, kvs []vfc20.KV, data []byte, size int64, o vfC04Opt
 		}
 		if o.Bisync {
 			c.Mode = "bisync"
+		}
+		c.HashTag = o.HashTag
+		c.TDB, c.FDB = o.TDB, o.FDB
+		if o.MaxBulk > 0 {
+			c.MaxBulk = o.MaxBulk
 		}
 		tg.FailExecToo = true // a fault injected at an EXEC request is a fault
 		tg.AcceptScripts = true
@@ -976,8 +989,10 @@ func vfC04Send(t *testing.T, kvs []vfc20.KV, data []byte, size int64, o vfC04Opt
 				fmt.Printf("VFDBG   #%d conn=%d db=%d %s\n", i, e.Conn, e.DB, e.String())
 			}
 		}
-		for _, e := range log {
-			if e.Cmd() == "hset" && len(e.Args) > 2 && string(e.Args[1]) == "vfcp" {
+		for i, e := range log {
+			// (a checkpoint write the target REFUSED is not a checkpoint: the audit's "final checkpoint write itself failing")
+			refused := (o.FailAt >= 0 && i == o.FailAt) || (o.FailFrom > 0 && i >= o.FailFrom-1) || (o.DropAt > 0 && i == o.DropAt-1)
+			if !refused && e.Cmd() == "hset" && len(e.Args) > 2 && string(e.Args[1]) == "vfcp" {
 				for _, a := range e.Args[2:] {
 					if string(a) == "vfrun_offset" {
 						res.Cp = true
@@ -998,9 +1013,11 @@ func vfC04Send(t *testing.T, kvs []vfc20.KV, data []byte, size int64, o vfC04Opt
 		{
 			isKey := map[string]bool{}
 			for _, kv := range kvs {
-				isKey[string(kv.Key)] = true
+				isKey[string(c.TKey(kv.Key))] = true
 			}
 			res.KeyReqs = map[string]int{}
+			res.AllReqs = map[string]int{}
+			pendingAll := map[int][]string{}
 			pending := map[int][]string{}
 			for i, e := range log {
 				failed := (o.FailAt >= 0 && i == o.FailAt) || (o.FailFrom > 0 && i >= o.FailFrom-1) || (o.DropAt > 0 && i == o.DropAt-1)
@@ -1010,11 +1027,23 @@ func vfC04Send(t *testing.T, kvs []vfc20.KV, data []byte, size int64, o vfC04Opt
 						for _, k := range pending[e.Conn] {
 							res.KeyReqs[k]++
 						}
+						for _, k := range pendingAll[e.Conn] {
+							res.AllReqs[k]++
+						}
 					}
 					delete(pending, e.Conn)
+					delete(pendingAll, e.Conn)
 				case e.Cmd() == "multi" || e.Cmd() == "discard":
 					delete(pending, e.Conn)
+					delete(pendingAll, e.Conn)
 				default:
+					if e.Cmd() != "ping" && !failed && !(o.FailInner > 0 && i == o.FailInner-1) && !(e.Cmd() == "hset" && len(e.Args) > 1 && string(e.Args[1]) == "vfcp") {
+						if e.Queued {
+							pendingAll[e.Conn] = append(pendingAll[e.Conn], e.String())
+						} else {
+							res.AllReqs[e.String()]++
+						}
+					}
 					if len(e.Args) >= 2 && isKey[string(e.Args[1])] && !failed && !(o.FailInner > 0 && i == o.FailInner-1) {
 						if e.Queued {
 							pending[e.Conn] = append(pending[e.Conn], e.String())
@@ -1027,12 +1056,17 @@ func vfC04Send(t *testing.T, kvs []vfc20.KV, data []byte, size int64, o vfC04Opt
 		}
 		res.AllApplied = true
 		for _, kv := range kvs {
+			if c.Filtered(kv.DB, kv.Key) {
+				continue // filtered by configuration: not an entry the replay has to apply
+			}
 			want := vfc20.ExpectVal(kv, o.Restore, vfc20.BubbleNowMs)
-			same := vfc20.SameVal(want, tg.Get(kv.DB, string(kv.Key)))
-			if !same && o.Restore && o.MaxBuf > 0 {
-				// a value the loader split into chunks (lowered threshold) is replayed by expanded commands also with
-				// restore on (IsSplited): the complete value then has the expanded representation on the double
-				same = vfc20.SameVal(vfc20.ExpectVal(kv, false, vfc20.BubbleNowMs), tg.Get(kv.DB, string(kv.Key)))
+			tkey := string(c.TKey(kv.Key))
+			tdb := c.TDBOf(kv.DB)
+			same := vfc20.SameVal(want, tg.Get(tdb, tkey))
+			if !same && o.Restore && (o.MaxBuf > 0 || o.MaxBulk > 0) {
+				// a value the loader split into chunks (lowered threshold), or one larger than MaxProtoBulkLen, is replayed by
+				// expanded commands also with restore on: the complete value then has the expanded representation on the double
+				same = vfc20.SameVal(vfc20.ExpectVal(kv, false, vfc20.BubbleNowMs), tg.Get(tdb, tkey))
 			}
 			if !same {
 				res.AllApplied = false
@@ -1182,6 +1216,7 @@ func vfC04SendCached(t *testing.T, kvs []vfc20.KV, data []byte, size int64, o vf
 }
 
 func vfC04Monitor(s *vfutil.Session, what string, file string, data []byte, o vfC04Opts, r vfC04Res) {
+	vfC04CfgCount(s, o)
 	rp := map[string]interface{}{"scenario": what, "file": file, "rdb": vfutil.Hex(data), "opts": o.String()}
 	if r.Died != "" {
 		s.Count("viol_" + r.Died)
@@ -1217,6 +1252,38 @@ func vfC04Monitor(s *vfutil.Session, what string, file string, data []byte, o vf
 // vfC04ResTokM: result, checkpoint and the multiplicity of the applied entries against the undisturbed run `ref`
 // (twice: some key received more requests than one application needs; once — reported for a replay that returned nil
 // only — every key received exactly the requests of one application)
+// vfC04CfgCount: which value of every configuration option that reaches sendRdb / rdbReplay* this run was made with
+func vfC04CfgCount(s *vfutil.Session, o vfC04Opts) {
+	many := func(n int) string {
+		switch {
+		case n <= 2:
+			return fmt.Sprint(n)
+		case n <= 4:
+			return "3-4"
+		case n < 100:
+			return "5-99"
+		}
+		return "many"
+	}
+	pol := o.Pol
+	if pol == "" {
+		pol = "replace"
+	}
+	s.Count("cfg_replayRdbParallel_" + many(o.Parallel))
+	s.Count("cfg_rdbPipeSize_" + many(o.PipeSize))
+	s.Count(fmt.Sprintf("cfg_bisync_%v", o.Bisync))
+	s.Count(fmt.Sprintf("cfg_replayRdbEnableRestore_%v", o.Restore))
+	s.Count(fmt.Sprintf("cfg_resumeFromBreakPoint_%v", o.Resume))
+	s.Count("cfg_keyExists_" + pol)
+	s.Count(fmt.Sprintf("cfg_cluster_%v", o.Cluster))
+	s.Count(fmt.Sprintf("cfg_replaceHashTag_%v", o.HashTag))
+	s.Count(fmt.Sprintf("cfg_maxBinEntryBuffer_lowered_%v", o.MaxBuf > 0))
+	s.Count(fmt.Sprintf("cfg_maxProtoBulkLen_small_%v", o.MaxBulk > 0))
+	s.Count(fmt.Sprintf("cfg_auxLua_%v", o.Lua != ""))
+	s.Count(fmt.Sprintf("cfg_targetDb_set_%v", o.TDB > 0))
+	s.Count(fmt.Sprintf("cfg_dbBlacklist_set_%v", len(o.FDB) > 0))
+}
+
 func vfC04ResTokM(r vfC04Res, ref map[string]int) string {
 	twice, once := 0, 1
 	for k, n := range ref {
@@ -1252,7 +1319,7 @@ func vfC04ResTok(r vfC04Res) string {
 }
 
 // routes of the entries the real loader produces, as sendRdb's distributor computes them
-func vfC04Routes(data []byte, n int) []string {
+func vfC04Routes(data []byte, n int, hashTag ...bool) []string {
 	bins, err := vfc20.Load(data, 0, "7.0.0")
 	if err != nil {
 		return nil
@@ -1260,8 +1327,15 @@ func vfC04Routes(data []byte, n int) []string {
 	var out []string
 	idx := uint32(0)
 	for _, e := range bins {
-		if len(e.Key) > 0 {
-			idx = util.FnvHash(e.Key) % uint32(n)
+		// as sendRdb's distributeTask (output.go): every entry except a function library belongs to a key, "" is a key;
+		// with replaceHashTag the key the entry is written to decides
+		if len(e.Key) > 0 || (e.ObjectParser != nil && e.ObjectParser.Type() != rdb.RdbObjectFunction) {
+			rk := e.Key
+			if len(hashTag) > 0 && hashTag[0] {
+				rk = bytes.Replace(rk, []byte("{"), []byte(""), 1)
+				rk = bytes.Replace(rk, []byte("}"), []byte(""), 1)
+			}
+			idx = util.FnvHash(rk) % uint32(n)
 		} else {
 			idx = (idx + 1) % uint32(n)
 		}
@@ -1275,7 +1349,7 @@ func vfC04FanOp(data []byte, o vfC04Opts, scen string) string {
 	if cw < 1 {
 		cw = 1
 	}
-	rs := vfC04Routes(data, o.Parallel)
+	rs := vfC04Routes(data, o.Parallel, o.HashTag)
 	r := "."
 	if len(rs) > 0 {
 		r = strings.Join(rs, ",")
@@ -1901,7 +1975,22 @@ func TestVerifC04(t *testing.T) {
 		par, ps int
 		bis     bool
 		cluster bool
+		ht      bool // replaceHashTag
+		mb      int  // MaxProtoBulkLen (0 = large)
+		tdb     int   // TargetDb + 1
+		fdb     []int // dbBlacklist
 	}
+	// dimension audit: degenerate-but-legal entries — the EMPTY key (a key like any other: routed by its hash, slot 0), an empty
+	// string value, keys with a hash tag (replaceHashTag on: written to and routed by the key without the braces), a list
+	// with equal elements, a third database, an expiry, the key "{}" (becomes the empty key under replaceHashTag — kept out of
+	// DB 0 so that it does not collide with the empty key there)
+	edgeFile := vfC04File{Name: "edge", KVs: []vfc20.KV{
+		{DB: 0, Key: []byte(""), Type: 0, Str: []byte("value-of-the-empty-key")},
+		{DB: 0, Key: []byte("{t}a"), Type: 1, Items: [][]byte{[]byte("p"), []byte("p"), []byte("q")}},
+		{DB: 0, Key: []byte("e"), Type: 0, Str: []byte("")},
+		{DB: 3, Key: []byte("x{t}"), Type: 0, ExpireAt: uint64(vfc20.BubbleNowMs + 3600_000), Str: []byte("0123456789abcdef0123456789abcdef")},
+		{DB: 3, Key: []byte("{}"), Type: 2, Items: [][]byte{[]byte("m")}},
+	}}
 	var scens []scen
 	for _, f := range files[:2] {
 		for par := 1; par <= 4; par++ {
@@ -1910,20 +1999,28 @@ func TestVerifC04(t *testing.T) {
 					if vfutil.Tier() == "quick" && ps == par && bis {
 						continue
 					}
-					scens = append(scens, scen{f, par, ps, bis, false})
+					scens = append(scens, scen{f, par, ps, bis, false, false, 0, 0, nil})
 				}
 			}
 		}
 	}
-	scens = append(scens, scen{luaFile, 1, 1024, false, false}, scen{luaFile, 2, 1, false, false})
+	scens = append(scens, scen{luaFile, 1, 1024, false, false, false, 0, 0, nil}, scen{luaFile, 2, 1, false, false, false, 0, 0, nil})
 	// bidirectional replay onto a CLUSTER target: one more result-sending goroutine (global lane)
-	scens = append(scens, scen{files[0], 1, 1024, true, true}, scen{files[0], 2, 1024, true, true}, scen{luaFile, 3, 2, true, true})
+	scens = append(scens, scen{files[0], 1, 1024, true, true, false, 0, 0, nil}, scen{files[0], 2, 1024, true, true, false, 0, 0, nil}, scen{luaFile, 3, 2, true, true, false, 0, 0, nil})
+	// dimension audit: the edge file plain / with replaceHashTag / bidirectional, more workers than entries over a pipe of 1,
+	// MaxProtoBulkLen small (restore on, but the long value is expanded)
+	scens = append(scens, scen{edgeFile, 2, 1024, false, false, false, 0, 0, nil}, scen{edgeFile, 3, 1, false, false, true, 0, 0, nil},
+		scen{edgeFile, 8, 1, true, false, false, 0, 0, nil}, scen{edgeFile, 1, 2, true, false, true, 0, 0, nil}, scen{edgeFile, 16, 1, false, false, true, 24, 0, nil})
+	// ... every database replayed into TargetDb 2; database 3 on the dbBlacklist (its entries are counted as filtered, the
+	// others must still all be there); both, bidirectional
+	scens = append(scens, scen{f: edgeFile, par: 2, ps: 2, tdb: 3}, scen{f: edgeFile, par: 3, ps: 1, fdb: []int{3}}, scen{f: files[0], par: 2, ps: 1, bis: true, tdb: 1, fdb: []int{1}})
 	for si, sc := range scens {
 		f, par, ps, bis := sc.f, sc.par, sc.ps, sc.bis
 		data := f.bytes()
 		o := vfC04DefaultOpts()
 		o.Parallel, o.PipeSize, o.Bisync, o.Cluster = par, ps, bis, sc.cluster
-		o.Restore = si%2 == 0
+		o.HashTag, o.MaxBulk, o.TDB, o.FDB = sc.ht, sc.mb, sc.tdb, sc.fdb
+		o.Restore = si%2 == 0 || sc.mb > 0
 		o.Resume = si%3 != 1 // in-memory checkpoint in a third of the scenarios
 		o.Lua = string(f.Opts.Lua)
 		o.Pol = vfC04Pols[(si/2)%len(vfC04Pols)]
@@ -2028,6 +2125,113 @@ func TestVerifC04(t *testing.T) {
 			}
 			s.Count("fan_hold_nocancel")
 			s.Distinct(fmt.Sprintf("fan/%s/%d/%d/%v/%v/%d", f.Name, par, ps, bis, sc.cluster, k))
+		}
+		if o.Resume {
+			// dimension audit: the FINAL CHECKPOINT WRITE itself refused — once (setCheckpoint retries) and for good. Every entry is
+			// applied; what must hold: no checkpoint counted that the target refused (plain replay: the record on the target is
+			// the resume position; bidirectional replay keeps one more in memory, set before the write — counted only)
+			oc := o
+			oc.FailAt, oc.Msg = nData, si
+			mark("cpFail " + oc.String())
+			r := vfC04Send(t, f.KVs, data, int64(len(data)), oc)
+			vfC04Monitor(s, "checkpoint-write-refused-once", f.Name, data, oc, r)
+			s.Count("fan_checkpoint_write_refused_once")
+			if r.Err == nil && r.Cp {
+				s.Count("observed_checkpoint_write_retried_and_recorded")
+			}
+			op := o
+			op.FailFrom = nData + 1
+			mark("cpFailFrom " + op.String())
+			r = vfC04Send(t, f.KVs, data, int64(len(data)), op)
+			vfC04Monitor(s, "checkpoint-write-refused-for-good", f.Name, data, op, r)
+			s.Count("fan_checkpoint_write_refused_for_good")
+			if r.Cp && !bis {
+				s.Count("viol_checkpoint-counted-though-refused")
+				s.Violate("checkpoint-counted-though-refused", "every checkpoint write was refused by the target, yet a checkpoint for the snapshot's offset exists",
+					map[string]interface{}{"scenario": "checkpoint-write-refused-for-good", "file": f.Name, "rdb": vfutil.Hex(data), "opts": op.String()})
+			}
+			if r.Err == nil {
+				s.Count("observed_replay_returned_nil_without_a_checkpoint")
+			} else {
+				s.Count("observed_checkpoint_failure_reported")
+			}
+		}
+	}
+
+	phase("3f")
+	// ------------------------------------------------ 3f. dimension audit: the FUNCTION LOAD path (and whatever else Redis-produced
+	// snapshots hold: quicklists, listpack containers, streams with groups) under a target error at EVERY request, every reply
+	// family in rotation. The data set is not known to the monitor: a replay that returns nil (or writes the checkpoint) must have
+	// executed every request the undisturbed replay of that file executes.
+	{
+		picked, withFn := 0, 0
+		for fi, data := range vfC04Fixtures() {
+			if len(data) > vfutil.Scale(700, 2000) {
+				continue
+			}
+			for _, bis := range []bool{false, true} {
+				o := vfC04DefaultOpts()
+				o.Parallel, o.PipeSize, o.Bisync, o.Restore = 1+fi%3, []int{1024, 1, 2}[fi%3], bis, fi%2 == 0
+				mark(fmt.Sprintf("fixture-fault clean %d", fi))
+				clean := vfC04Send(t, nil, data, int64(len(data)), o)
+				vfC04CfgCount(s, o)
+				if clean.Hang != "" || clean.Err != nil || !clean.Cp {
+					s.Count("fixture_fault_not_replayable_on_the_double")
+					continue
+				}
+				fn := false
+				for c := range clean.AllReqs {
+					if strings.HasPrefix(c, "function") {
+						fn = true
+					}
+				}
+				if fn {
+					s.Count("fixture_fault_files_with_function_load")
+					withFn++
+				}
+				s.Count("fixture_fault_files")
+				nData := clean.NReq - 1
+				for k := 0; k < nData; k++ {
+					of := o
+					of.FailAt, of.Msg = k, k+fi
+					mark(fmt.Sprintf("fixture-fault %d %d", fi, k))
+					r := vfC04Send(t, nil, data, int64(len(data)), of)
+					vfC04CfgCount(s, of)
+					s.Count("fixture_fault_points")
+					if fn && strings.HasPrefix(r.FailCmd, "function") {
+						s.Count("fixture_fault_at_function_load")
+					}
+					rp := map[string]interface{}{"scenario": "fixture-target-error", "file": "foreign", "rdb": vfutil.Hex(data), "opts": of.String()}
+					if r.Hang != "" {
+						s.Count("viol_hang")
+						s.Violate("hang", "fixture-target-error: SendRdb did not return: "+r.Hang, rp)
+						continue
+					}
+					var missing []string
+					for c, n := range clean.AllReqs {
+						if r.AllReqs[c] < n {
+							missing = append(missing, c)
+						}
+					}
+					if len(missing) > 0 {
+						s.Count("incomplete_replays")
+						if len(missing) > 3 {
+							missing = missing[:3]
+						}
+						if r.Err == nil {
+							s.Count("viol_incomplete-reported-ok")
+							s.Violate("incomplete-reported-ok", fmt.Sprintf("fixture-target-error: request #%d (%s) refused; requests of the undisturbed replay not executed (%q …) but SendRdb returned nil (checkpoint=%v)", k, r.FailCmd, missing, r.Cp), rp)
+						}
+						if r.Cp {
+							s.Count("viol_incomplete-checkpointed")
+							s.Violate("incomplete-checkpointed", fmt.Sprintf("fixture-target-error: request #%d (%s) refused; requests of the undisturbed replay not executed (%q …) but the resume position was advanced (err=%v)", k, r.FailCmd, missing, r.Err), rp)
+						}
+					} else {
+						s.Count("complete_replays")
+					}
+				}
+			}
+			picked++
 		}
 	}
 
